@@ -121,7 +121,7 @@ def eval_session(model, case):
     opts = model_options(model, spec.get("kwargs", {}))
     mres = model.call(
         "session", iter0=opts["iter0"], nanstop=opts["nanstop"], clock=clock0, ops=ops, stepTicks=st[: n + 1], cbTicks=ct[: n + 1],
-        vars=twin["fin"] + [[]], ctl=(ctl or []), disp=D.display_opts(spec.get("kwargs", {}).get("itstat_options")),
+        vars=twin["fin"] + [[]], ctl=[None if c == "raise" else c for c in (ctl or [])], raises=[c == "raise" for c in (ctl or [])], disp=D.display_opts(spec.get("kwargs", {}).get("itstat_options")),
     )
     bundle = {"twin": twin, "real": real, "model": mres, "min0": min0}
     custom = spec.get("kwargs", {}).get("itstat_options") in ("custom", "custom-same")
@@ -286,6 +286,9 @@ def check_session(ctx, model, case, origin="gen"):
     if spec.get("reuse"):
         ctx.count(f"session:optimisers built earlier from the same options object={spec['reuse']}")
     if case.get("ctl"):
+        for c in bundle["real"]["obs"]:
+            if c.get("op") == "solve" and c["outcome"] == "cbraise":
+                ctx.count("solve:callback raised")
         ctx.count("session:callbacks assign itnum/maxiter")
         ncb = sum(len(c.get("cbs", [])) for c in bundle["real"]["obs"] if c.get("op") == "solve")
         ctx.count("session:callback invocations that assign", sum(1 for j in range(min(ncb, len(case["ctl"]))) if case["ctl"][j] is not None))
